@@ -36,29 +36,45 @@ def load(name='digital_rf'):
     return pkg
 
 
-def new_obj(cls):
-    """cls.__new__(cls) plus the plain attribute defaults of the real __init__ (self.x = None / constant / empty container), read from its
-    source: harnesses that cannot run a constructor (directory discovery, file access) still see every simple attribute a constructor of
-    the tree under test initialises (e.g. a cache added by a change)"""
+_DEFAULTS = {}
+
+
+def _defaults(cls):
+    """plain attribute defaults of cls.__init__ (self.x = None / constant / empty container), read once from its source"""
+    if cls in _DEFAULTS: return _DEFAULTS[cls]
     import ast, inspect, textwrap
-    o = cls.__new__(cls)
+    out = []
     try:
         fn = ast.parse(textwrap.dedent(inspect.getsource(cls.__init__))).body[0]
     except Exception:
-        return o
+        _DEFAULTS[cls] = out; return out
     for st in ast.walk(fn):
         if not (isinstance(st, ast.Assign) and len(st.targets) == 1): continue
         t = st.targets[0]
         if not (isinstance(t, ast.Attribute) and isinstance(t.value, ast.Name) and t.value.id == 'self'): continue
-        v = st.value; val = None; ok = False
-        if isinstance(v, ast.Constant): val, ok = v.value, True
+        v = st.value
+        if isinstance(v, ast.Constant): out.append((t.attr, 'const', v.value))
         elif isinstance(v, (ast.Dict, ast.List, ast.Set, ast.Tuple)) and not (getattr(v, 'keys', None) or getattr(v, 'elts', None)):
-            val, ok = {ast.Dict: dict, ast.List: list, ast.Set: set, ast.Tuple: tuple}[type(v)](), True
+            out.append((t.attr, 'make', {ast.Dict: dict, ast.List: list, ast.Set: set, ast.Tuple: tuple}[type(v)]))
         elif isinstance(v, ast.Call) and not v.args and not v.keywords:
-            name = ast.unparse(v.func)
-            mk = {'set': set, 'dict': dict, 'list': list, 'collections.OrderedDict': dict, 'OrderedDict': dict, 'collections.deque': list}.get(name)
-            if mk is not None: val, ok = mk(), True
-        if ok and not hasattr(o, t.attr):
-            try: setattr(o, t.attr, val)
+            mk = {'set': set, 'dict': dict, 'list': list, 'collections.OrderedDict': dict, 'OrderedDict': dict, 'collections.deque': list}.get(ast.unparse(v.func))
+            if mk is not None: out.append((t.attr, 'make', mk))
+    _DEFAULTS[cls] = out
+    return out
+
+
+def warm(*classes):
+    """read the constructor defaults at import time (outside any symbolic execution)"""
+    for c in classes: _defaults(c)
+
+
+def new_obj(cls):
+    """cls.__new__(cls) plus the plain attribute defaults of the real __init__ (self.x = None / constant / empty container), read from its
+    source: harnesses that cannot run a constructor (directory discovery, file access) still see every simple attribute a constructor of
+    the tree under test initialises (e.g. a cache added by a change)"""
+    o = cls.__new__(cls)
+    for attr, kind, val in _defaults(cls):
+        if not hasattr(o, attr):
+            try: setattr(o, attr, val() if kind == 'make' else val)
             except Exception: pass
     return o
